@@ -74,6 +74,17 @@ def allows(prio, env):
     return {'NOW': True, 'CREW': not busy, 'DOING': not doing, 'TODO': not que}[prio]
 
 
+class CV(list):
+    """C12 violations; a liveness clause remembers whether a known cause was pending when it was detected"""
+
+    def __init__(self, w):
+        super().__init__()
+        self.w = w
+
+    def append(self, item):
+        super().append((item[0], item[1], self.w.cause if item[0] in CONSEQUENCES else None))
+
+
 class SubmitWorld(World):
     """World + the environment the pollers read + the recorder of update_trigger"""
 
@@ -106,7 +117,7 @@ class SubmitWorld(World):
         self.ref_cycle = 0
         self.accepted_cycle = {}    # cycle -> number of accepted updates
         self.cause = None           # known cause seen in the current cycle
-        self.cv = []                # C12 violations
+        self.cv = CV(self)          # C12 violations
 
         def hook(call):
             if call['trigger'] == 'update_trigger':
@@ -177,6 +188,7 @@ class SubmitWorld(World):
     # ---------------------------------------------------------------- events
     def ev(self, e):
         """apply one harness event; returns the observation"""
+        self.set_env(self.env)   # the real farm.clear() of FSM.load empties farm._busy: the harness' environment rules
         self._sync_cycle()
         n_upd = len(self.updates)
         self.strongest_at_update = self.strongest()
@@ -224,6 +236,17 @@ class SubmitWorld(World):
                                         'called): every later submission is turned away'))
                     p = sub.prio if sub.prio in ORDER else 'TODO'
                     self.ref.append(p)
+                    # this step_3 went through set_submit_info and the crossroads: whatever an earlier known finding
+                    # left behind (armed event, no poller), the wait is (re)started here - liveness is owed again
+                    self.cause = None
+                    top = self.strongest()
+                    if top != 'NOW' and self.accepted_cycle.get(self.resets, 0) == 0 and not self.waiters(KIND[top]) \
+                            and not any(u['call']['raised'] is None for u in self.updates[n_upd:]):
+                        self.cv.append(('C12:no-poller-after-crossroads',
+                                        f'step_3 went through the crossroads with {top} the strongest priority requested '
+                                        f'since the last reload ({self.ref}) and no reload under way, but no {KIND[top]} '
+                                        f'poller exists (slots {self.snapshot()["slots"]}, flags set '
+                                        f'{self.snapshot()["flags"]}): nothing will ever call update_trigger'))
                     self.strongest_at_update = self.strongest()
                     want = self.strongest()
                     got = getattr(self.fsm.priority, 'name', None)
@@ -254,6 +277,7 @@ class SubmitWorld(World):
 
     def poll(self, kind):
         """one evaluation of the real loop condition of the poller in slot `kind`"""
+        self.set_env(self.env)
         recs = self.waiters(kind)
         self._begin()
         if not recs:
@@ -328,13 +352,11 @@ def model_ev(e, w_prio):
 
 
 def report(w, res, replay):
-    cause = None
-    for sig, what in w.cv:
-        if sig in KNOWN_CAUSES:
-            cause = cause or sig
-    for sig, what in w.cv:
+    for sig, what, cause in w.cv:
         if cause and sig in CONSEQUENCES:
-            res.hit(cause, what + f' (consequence of {cause} in this history)', replay)
+            # detected while a known finding of this reload cycle was still pending (no later submission went
+            # through the crossroads since)
+            res.hit(cause, what + f' (consequence of {cause} earlier in this reload cycle)', replay)
         else:
             res.hit(sig, what, replay)
     for sig, what in w.violations:
@@ -385,6 +407,11 @@ def canon_model(x):
 
 BOOT = ['boot', 'c0F', 'c0F']
 CORPUS = [
+    # after a known finding, a later submission of the same or a weaker priority goes through the crossroads:
+    # a poller must exist again and the reload must fire once the condition holds
+    (False, '001', BOOT + ['sb:TODO', 'sd', 'sb:TODO', 'env:000', 'pT', 'env:001', 'sd', 'pT', 'env:000', 'pT']),
+    (False, '010', BOOT + ['sb:DOING', 'sd', 'sbo:TODO', 'env:000', 'pD', 'env:010', 'sd', 'pD', 'env:000', 'pD']),
+    (True, '100', BOOT + ['sb:CREW', 'sd', 'env:000', 'da', 'pC', 'c0T', 'env:100', 'sb:CREW', 'sd', 'env:000', 'pC']),
     # the known findings first (deterministic): waiter fires while archiving / while another submission is gitting
     (False, '001', BOOT + ['sb:TODO', 'sd', 'fa', 'da', 'env:000', 'pT', 'c0F']),
     (False, '001', BOOT + ['sb:TODO', 'sd', 'sb:TODO', 'env:000', 'pT', 'sf']),
